@@ -1060,6 +1060,166 @@ Proof.
     unfold tail; destruct close; cbn [is_empty orb]; try reflexivity; apply probe_is_probe.
 Qed.
 
+
+
+(* ---------- the property on the model's own output, backend replies ---------- *)
+Lemma has_key_app k a b : has_key k (a ++ b) = has_key k a || has_key k b.
+Proof. unfold has_key. apply existsb_app. Qed.
+Lemma has_key_del_sub k X l : has_key k (del_key X l) = true -> has_key k l = true.
+Proof.
+  rewrite !has_key_get_all. intro H. destruct (get_all k l) eqn:E; [|reflexivity].
+  rewrite (get_all_del_nil k X l E) in H. discriminate.
+Qed.
+
+(* the header seen by sendResponse differs from the one the backend sent only in framing fields *)
+Lemma headers_ok_view status h h' fs :
+  (forall kv, In kv h -> e2e_key status (fst kv) = true -> In kv h' /\ get_all (fst kv) h' = get_all (fst kv) h) ->
+  (forall k, has_key k h' = true -> has_key k h = true \/ framing_key k = true) ->
+  has_key s_date h' = has_key s_date h -> has_key s_ct h' = has_key s_ct h ->
+  headers_ok status h' fs = true -> headers_ok status h fs = true.
+Proof.
+  intros H1 H2 Hd Hc Hok. unfold headers_ok in *.
+  apply andb_true_iff in Hok. destruct Hok as [Hok O4]. apply andb_true_iff in Hok. destruct Hok as [Hok O3].
+  apply andb_true_iff in Hok. destruct Hok as [O1 O2]. rewrite Hd in O3. rewrite Hc in O4. rewrite O3, O4, !andb_true_r.
+  apply andb_true_iff. split.
+  - apply forallb_forall. intros kv Hin. destruct (e2e_key status (fst kv)) eqn:Ee; [|reflexivity]. cbn [implb].
+    destruct (H1 kv Hin Ee) as [Hin' Hg]. rewrite forallb_forall in O1. specialize (O1 kv Hin'). rewrite Ee in O1.
+    cbn [implb] in O1. rewrite Hg in O1. exact O1.
+  - apply forallb_forall. intros x Hx. rewrite forallb_forall in O2. specialize (O2 x Hx). rewrite Hd, Hc in O2.
+    destruct (framing_key (fst x)) eqn:Ef; [reflexivity|]. cbn [orb] in *.
+    destruct (has_key (fst x) h') eqn:Eh; [|destruct (has_key (fst x) h); [reflexivity|exact O2]].
+    destruct (H2 _ Eh) as [K|K]; [rewrite K; reflexivity|congruence].
+Qed.
+
+Definition view_hdrs (h : fields) (framing declared : Z) : fields :=
+  (if bytes_eqb (to_lower (get_first s_conn h)) s_close then del_key s_conn h else h) ++
+  (if framing =? 0 then [(s_cl, dec_of_Z declared)] else []).
+Lemma backend_view_hdrs is_head status h framing declared chunks tr :
+  fst (fst (backend_view is_head status h framing declared chunks tr)) = view_hdrs h framing declared.
+Proof.
+  unfold backend_view, view_hdrs. destruct (is_head || negb (body_allowed_status status));
+    destruct (framing =? 0); cbn [fst]; rewrite ?app_nil_r; reflexivity.
+Qed.
+Lemma e2e_not_framing status k : e2e_key status k = true ->
+  bytes_eqb s_cl k = false /\ bytes_eqb s_te k = false /\ bytes_eqb s_conn k = false.
+Proof.
+  unfold e2e_key, framing_key. intro H. apply andb_true_iff in H. destruct H as [H _]. apply negb_true_iff in H.
+  apply orb_false_iff in H. destruct H as [H H3]. apply orb_false_iff in H. destruct H as [H1 H2].
+  repeat split; apply eq_fold_false_neq; assumption.
+Qed.
+Lemma view_e2e status h framing declared kv : In kv h -> e2e_key status (fst kv) = true ->
+  In kv (view_hdrs h framing declared) /\ get_all (fst kv) (view_hdrs h framing declared) = get_all (fst kv) h.
+Proof.
+  intros Hin He. destruct (e2e_not_framing _ _ He) as [N1 [N2 N3]]. unfold view_hdrs.
+  assert (Hd : In kv (del_key s_conn h)).
+  { unfold del_key. apply filter_In. split; [exact Hin|]. unfold key_is. rewrite N3. reflexivity. }
+  assert (Hc : get_all (fst kv) [(s_cl, dec_of_Z declared)] = []).
+  { rewrite get_all_cons. unfold key_is. cbn [fst]. rewrite bytes_eqb_sym, N1. reflexivity. }
+  destruct (bytes_eqb (to_lower (get_first s_conn h)) s_close); destruct (framing =? 0);
+    (split; [apply in_or_app; left; assumption|]); rewrite get_all_app, ?Hc, ?app_nil_r, ?(get_all_del_other _ _ _ N3); reflexivity.
+Qed.
+Lemma view_has_key h framing declared k : has_key k (view_hdrs h framing declared) = true ->
+  has_key k h = true \/ framing_key k = true.
+Proof.
+  unfold view_hdrs. rewrite has_key_app. intro H. apply orb_true_iff in H. destruct H as [H|H].
+  - left. destruct (bytes_eqb (to_lower (get_first s_conn h)) s_close); [apply (has_key_del_sub _ _ _ H)|exact H].
+  - right. destruct (framing =? 0); [|discriminate]. cbn in H. rewrite orb_false_r in H. unfold key_is in H. cbn [fst] in H.
+    apply bytes_eqb_eq in H. subst k. reflexivity.
+Qed.
+Lemma view_has_other h framing declared k : bytes_eqb s_conn k = false -> bytes_eqb s_cl k = false ->
+  has_key k (view_hdrs h framing declared) = has_key k h.
+Proof.
+  intros N1 N2. unfold view_hdrs. rewrite has_key_app.
+  assert (Hc : has_key k [(s_cl, dec_of_Z declared)] = false).
+  { cbn. unfold key_is. cbn [fst]. rewrite bytes_eqb_sym, N2. reflexivity. }
+  destruct (bytes_eqb (to_lower (get_first s_conn h)) s_close); destruct (framing =? 0);
+    rewrite ?Hc, ?(has_key_del_other _ _ _ N1), ?orb_false_r; reflexivity.
+Qed.
+Lemma view_wf h framing declared : wf_hdrs h = true -> get_all s_cl h = [] -> digits18 (dec_of_Z declared) = true ->
+  wf_hdrs (view_hdrs h framing declared) = true.
+Proof.
+  intros Hwf Hcl Hd. pose proof (wf_keys _ Hwf) as Hk. pose proof (wf_te _ Hwf) as Hte.
+  unfold wf_hdrs. repeat (apply andb_true_iff; split).
+  - unfold view_hdrs. rewrite forallb_app. apply andb_true_iff. split.
+    + destruct (bytes_eqb (to_lower (get_first s_conn h)) s_close); [apply forallb_del|]; exact Hk.
+    + destruct (framing =? 0); reflexivity.
+  - rewrite (view_has_other h framing declared s_te) by reflexivity. rewrite has_key_get_all, Hte. reflexivity.
+  - unfold view_hdrs. rewrite get_all_app.
+    destruct (bytes_eqb (to_lower (get_first s_conn h)) s_close); rewrite ?(get_all_del_nil _ _ _ Hcl), ?Hcl;
+      (destruct (framing =? 0); [|reflexivity]); cbn [app]; rewrite get_all_cons; cbn; exact Hd.
+Qed.
+Lemma view_cl h framing declared v : get_all s_cl h = [] -> get_all s_cl (view_hdrs h framing declared) = [v] ->
+  framing = 0 /\ v = dec_of_Z declared.
+Proof.
+  intros Hcl. unfold view_hdrs. rewrite get_all_app.
+  destruct (bytes_eqb (to_lower (get_first s_conn h)) s_close); rewrite ?(get_all_del_nil _ _ _ Hcl), ?Hcl;
+    (destruct (framing =? 0) eqn:Ef; [|discriminate]); cbn [app]; rewrite get_all_cons; cbn; intro H; injection H as <-;
+    (split; [lia|reflexivity]).
+Qed.
+
+Theorem prop_of_model_backend i c :
+  dec_C27 i = Some c -> i_src c = 1 ->
+  (q_minor (i_q c) = 0 \/ q_minor (i_q c) = 1) -> 100 <= i_status c <= 599 ->
+  wf_hdrs (i_hdrs c) = true -> get_all s_cl (i_hdrs c) = [] -> digits18 (dec_of_Z (i_declared c)) = true ->
+  0 <= i_declared c < 10 ^ 80 ->
+  blen (supplied_body c) < 2 ^ 62 -> irregular c = false ->
+  prop_C27 i (run_C27 i) = true.
+Proof.
+  intros Hdec Hsrc Hm Hst Hwf Hncl Hdd Hdr Hlen Hirr.
+  unfold prop_C27, run_C27. rewrite Hdec. unfold exchange, response_of.
+  assert (Es : negb (i_src c =? 1) = false) by lia. rewrite Es.
+  assert (Es0 : negb (i_src c =? 0) = true) by lia. rewrite Es0.
+  destruct (backend_view (q_head (i_q c)) (i_status c) (i_hdrs c) (i_framing c) (i_declared c) (i_pieces c) (i_err c))
+    as [[h' ps'] e'] eqn:Ev.
+  pose proof (backend_view_hdrs (q_head (i_q c)) (i_status c) (i_hdrs c) (i_framing c) (i_declared c) (i_pieces c) (i_err c)) as Hh'.
+  rewrite Ev in Hh'. cbn [fst] in Hh'. subst h'.
+  assert (Hps : expects_b (i_q c) (i_status c) = true -> ps' = filter (fun x => negb (is_empty x)) (i_pieces c) /\ e' = i_err c).
+  { intro He. unfold expects_b in He. unfold backend_view in Ev.
+    assert (En : q_head (i_q c) || negb (body_allowed_status (i_status c)) = false).
+    { clear - He. destruct (q_head (i_q c)), (body_allowed_status (i_status c)); cbn in *; congruence. }
+    rewrite En in Ev. injection Ev as _ E2 E3. split; congruence. }
+  assert (Hps0 : expects_b (i_q c) (i_status c) = false -> ps' = []).
+  { intro He. unfold expects_b in He. unfold backend_view in Ev.
+    assert (En : q_head (i_q c) || negb (body_allowed_status (i_status c)) = true).
+    { clear - He. destruct (q_head (i_q c)), (body_allowed_status (i_status c)); cbn in *; congruence. }
+    rewrite En in Ev. injection Ev as _ E2 E3. congruence. }
+  destruct (respond (i_q c) (false, false, false, false) true (i_status c) (view_hdrs (i_hdrs c) (i_framing c) (i_declared c)) ps' e')
+    as [[out close] dr] eqn:Er.
+  set (tail := if close then [] else probe_bytes).
+  pose proof (view_wf _ (i_framing c) (i_declared c) Hwf Hncl Hdd) as Hwf'.
+  assert (Hcp : concat ps' = if expects_b (i_q c) (i_status c) then concat (i_pieces c) else []).
+  { destruct (expects_b (i_q c) (i_status c)) eqn:He.
+    - destruct (Hps eq_refl) as [-> _]. apply concat_filter_nonempty.
+    - rewrite (Hps0 eq_refl). reflexivity. }
+  assert (Hlen' : blen (concat ps') < 2 ^ 62).
+  { rewrite Hcp. destruct (expects_b _ _); [exact Hlen|]. vm_compute. reflexivity. }
+  assert (Hreg : expects_b (i_q c) (i_status c) = true ->
+                 e' = false /\ forall v, get_all s_cl (view_hdrs (i_hdrs c) (i_framing c) (i_declared c)) = [v] ->
+                                         parse_dec v = Some (blen (concat ps'))).
+  { intro He. destruct (Hps He) as [_ He']. unfold irregular in Hirr.
+    change (expects_body c) with (expects_b (i_q c) (i_status c)) in Hirr.
+    rewrite He, Es in Hirr. cbn [andb] in Hirr. apply orb_false_iff in Hirr. destruct Hirr as [I1 I2].
+    split; [congruence|]. intros v Hv. rewrite Hcp, He.
+    destruct (view_cl _ _ _ _ Hncl Hv) as [Ef ->]. rewrite Ef in I2. cbn [Z.eqb andb] in I2.
+    apply negb_false_iff in I2. apply Z.eqb_eq in I2.
+    unfold supplied_body in I2. rewrite <- I2. apply parse_dec_dec_of_Z. exact Hdr. }
+  destruct (parses_as_one (i_q c) true (i_status c) _ ps' e' tail out close dr Hwf' Hm Hst Hlen' Hreg Er)
+    as [fs [fr [Hp [Hfr [cl [hd [p Hfs]]]]]]].
+  { unfold tail. intro Hc. rewrite Hc. reflexivity. }
+  fold tail. rewrite Hp. unfold mkp. cbn [p_status p_fields p_framing p_complete p_body p_rest].
+  rewrite Z.eqb_refl, Hfs.
+  rewrite (headers_ok_view (i_status c) (i_hdrs c) (view_hdrs (i_hdrs c) (i_framing c) (i_declared c))).
+  2:{ intros kv Hin He. apply (view_e2e (i_status c)); assumption. }
+  2:{ apply view_has_key. }
+  2:{ apply view_has_other; reflexivity. }
+  2:{ apply view_has_other; reflexivity. }
+  2:{ apply headers_preserved. apply wf_keys. exact Hwf'. }
+  cbn [andb]. change (expects_body c) with (expects_b (i_q c) (i_status c)). rewrite Hirr, Hfr, Hcp.
+  unfold supplied_body.
+  destruct (expects_b (i_q c) (i_status c)); cbn [negb andb]; rewrite bytes_eqb_refl; cbn [andb];
+    unfold tail; destruct close; cbn [is_empty orb]; try reflexivity; apply probe_is_probe.
+Qed.
+
 Definition witness_200 : val :=
   VL [VZ 1; VZ 0; VB []; VZ 2; VZ 200; VL [VL [VB s_cl; VB [53]]; VL [VB s_ct; VB s_text_plain]]; VZ 0; VZ 0;
       VL [VB [104;101]; VB [108;108;111]]; VZ 0].
